@@ -13,6 +13,7 @@ on both axes.
 Not decided: which edges Chickering's ordering / labelling marks compelled vs reversible.
 """
 from .common import *
+from ..pred import npred
 
 EXPLANATION = __doc__
 
@@ -72,6 +73,145 @@ def label_rules(rep, prog):
     return marker, written, f
 
 
+def step_rules(rep, prog, marker, com, rev):
+    """The passes of label_edges, role by role (Chickering 1995, LABEL-EDGES, as implemented here and confirmed by reading):
+    pick the unknown edge x -> y; for every compelled w -> x: if w is not a parent of y, compel every edge into y and end
+    the pass, otherwise compel w -> y; then, unless the pass ended, every still unknown edge into y becomes compelled if some
+    parent z of y other than x is not a parent of x, reversible otherwise.  All matrix accesses are [from, to]."""
+    from ..setpred import SetAlg
+    q = U + "label_edges"
+    f = need(prog, q)
+    S = Sym(prog, inline=inline_helpers(prog, "sempler.utils"))
+    run_function(S, f)
+    loops = sorted([(k, v) for k, v in S.loopinfo.items() if v["func"] == q], key=lambda kv: kv[0][1])
+    outer = [kv for kv in loops if kv[1]["test"] is not None]
+    inner = [kv for kv in loops if kv[1]["test"] is None]
+    if len(outer) != 1 or len(inner) != 1:
+        rep.unk("STEP.shape", fwhere(f), "label_edges is no longer `while unknown: ... for w in compelled-into-x: ...`; the step rules do not read this idiom")
+        return
+    (lo, lout), (li_, lin) = outer[0], inner[0]
+    names = [k for k in lout["init"] if lout["init"][k][0] == "binop"]
+    if len(names) != 1:
+        rep.unk("STEP.shape", fwhere(f), "label matrix not identified")
+        return
+    nm = names[0]
+    LAB = ("LAB",)
+
+    def is_state(t):
+        if not isinstance(t, tuple) or not t:
+            return False
+        if t[0] in ("mu", "after") and t[-1] == nm:
+            return True
+        if t[0] == "store":
+            return is_state(t[1])
+        if t[0] == "phi":
+            return is_state(t[2]) and is_state(t[3])
+        return False
+
+    def ab(t):
+        """the term with every state of the label matrix replaced by LAB"""
+        if is_state(t):
+            return LAB
+        if isinstance(t, tuple):
+            return tuple(ab(x) for x in t)
+        return t
+    # --- the selected edge
+    sel = None
+    for fact in S.facts:
+        if fact.qname == q and fact.kind == "call" and fact.callkind == "ext" and fact.target == "numpy.unravel_index":
+            sel = fact
+    if sel is None:
+        rep.unk("STEP.select", fwhere(f), "the unknown edge is not selected with np.unravel_index(np.argmax(.), shape)")
+        return
+    x, y = ("sub", sel.result, ("const", 0)), ("sub", sel.result, ("const", 1))
+    am = sel.args[0] if sel.args else ("const", None)
+    unk_mask = ("cmp", "==", LAB, ("const", marker))
+    okm = am[0] == "ext" and am[1] == "numpy.argmax" and len(am[2]) == 1 and any(z == ("param", "ordered") for z in walk(am[2][0])) and \
+        any(z == unk_mask for z in walk(ab(am[2][0])))
+    neg_inf = [st for st in S.select("store", qname=q) if not is_state(st.base) and st.value in (("unop", "neg", ("extref", "numpy.inf")), ("unop", "-", ("extref", "numpy.inf")))]
+    rep.check("STEP.select", okm and len(neg_inf) == 1, fwhere(f, sel.node), "(x, y) = position of the largest order number among the still unknown edges (others masked by -inf)",
+              "the edge to process is not the arg-max of `ordered` over the unknown edges")
+    ax, ay = ab(x), ab(y)
+    FULL = ("slice", ("const", None), ("const", None), ("const", None))
+
+    def col_where(node, label):
+        return ("sub", ("ext", "numpy.where", (("cmp", "==", ("sub", LAB, ("tuple", (FULL, node))), ("const", label)),), ()), ("const", 0))
+    # --- compelled edges into x
+    rep.check("STEP.compelled-into-x", ab(lin["iter"]) == col_where(ax, com), fwhere(f, lin["node"]), "w ranges over the nodes with a compelled edge w -> x (column x of the labels)",
+              "the inner loop runs over %s, not over the compelled edges into x" % fmt(ab(lin["iter"]))[:90])
+    w = ab(("elem", lin["iter"]))
+    tests = [t for t in S.select("test", qname=q) if t.loops and t.loops[-1] == li_]
+    stores = [st for st in S.select("store", qname=q) if is_state(st.base)]
+    in_stores = [st for st in stores if st.loops and st.loops[-1] == li_]
+    fin_stores = [st for st in stores if st.loops == (lo,)]
+    notpar = ("cmp", "==", ("sub", LAB, ("tuple", (w, ay))), ("const", 0))
+    okt = len(tests) == 1 and npred(ab(tests[0].term), True) in (npred(notpar, True), npred(notpar, False))
+    rep.check("STEP.parent-test", okt, fwhere(f, tests[0].node if tests else lin["node"]), "each compelled w -> x is tested for `w -> y` by reading labels[w, y]",
+              "the test inside the pass is %s, not whether labels[w, y] is an edge" % (fmt(ab(tests[0].term))[:80] if tests else "missing"))
+    if okt:
+        T0 = tests[0].term
+
+        def branch(st, not_parent):
+            for cnd, pol in st.path:
+                if cnd == T0:
+                    return (npred(ab(cnd), pol) == npred(notpar, True)) == not_parent
+            return False
+        pay = ("call", U + "pa", (ay, LAB), (("A", LAB), ("i", ay)))
+        all_in = [st for st in in_stores if branch(st, True)]
+        one = [st for st in in_stores if branch(st, False)]
+        ok1 = len(all_in) == 1 and ab(all_in[0].idx) in (("tuple", (("ext", "list", (pay,), ()), ay)), ("tuple", (("ext", "sorted", (pay,), ()), ay))) and is_const(all_in[0].value, com)
+        rep.check("STEP.compel-all", ok1, fwhere(f, all_in[0].node if all_in else tests[0].node), "w not a parent of y: every edge into y becomes compelled (labels[pa(y), y] = %s)" % com,
+                  "the `w is not a parent of y` branch does not compel all edges into y: %s" % (fmt(ab(all_in[0].idx))[:80] if all_in else "no store"))
+        ok2 = len(one) == 1 and ab(one[0].idx) == ("tuple", (w, ay)) and is_const(one[0].value, com) and len(in_stores) == 2
+        rep.check("STEP.compel-w", ok2, fwhere(f, one[0].node if one else tests[0].node), "otherwise w -> y becomes compelled (labels[w, y] = %s)" % com,
+                  "the `w is a parent of y` branch does not compel exactly w -> y: %s" % (fmt(ab(one[0].idx))[:80] if one else "no store"))
+        # the pass ends after compel-all: a flag that is False at loop entry and True exactly on the break path guards the last step
+        flags = [k for k, v in lin["init"].items() if is_const(v, False) and any(is_const(b.get(k, ("const", None)), True) for b in lin["breaks"])]
+        brk = len(lin["breaks"]) == 1 and any((T0, pol) in lin["breaks"][0].get("$path", ()) and (npred(ab(T0), pol) == npred(notpar, True)) for pol in (True, False))
+        guarded = bool(fin_stores) and bool(flags) and all(any(npred(cnd, pol) == npred(("after", li_, flags[0]), False) for cnd, pol in st.path) for st in fin_stores)
+        rep.check("STEP.end-of-pass", brk and guarded, fwhere(f, lin["node"]), "after compelling all edges into y the pass ends: the loop is left and the last step is skipped",
+                  "the pass is not ended after `compel all edges into y` (break / flag / guard of the last step changed)")
+    # --- the last step
+    if len(fin_stores) != 1:
+        rep.bad("STEP.last", fwhere(f), "expected one store for the remaining unknown edges into y, found %d" % len(fin_stores))
+        return
+    st = fin_stores[0]
+    rep.check("STEP.unknown-into-y", ab(st.idx) == ("tuple", (col_where(ay, marker), ay)), fwhere(f, st.node), "the last step relabels exactly the still unknown edges into y (column y)",
+              "the last step writes %s" % fmt(ab(st.idx))[:100])
+    v = ab(st.value)
+    if not (v[0] == "phi" and {v[2], v[3]} == {("const", com), ("const", rev)}):
+        rep.bad("STEP.z-exists", fwhere(f, st.node), "the last step does not choose between compelled (%s) and reversible (%s): %s" % (com, rev, fmt(v)[:80]))
+        return
+    cond, when_true_com = v[1], v[2] == ("const", com)
+    pax = ("call", U + "pa", (ax, LAB), (("A", LAB), ("i", ax)))
+    pay = ("call", U + "pa", (ay, LAB), (("A", LAB), ("i", ay)))
+    sx = ("set", (ax,))
+    alg = SetAlg([pay, sx, pax])
+    try:
+        used = {z for z in walk(cond) if isinstance(z, tuple) and z and (z[0] == "call" or z[0] == "set")}
+        if not used <= {pay, sx, pax}:
+            raise Inconclusive("uses other sets than pa(y), {x}, pa(x): %s" % [fmt(u)[:30] for u in used - {pay, sx, pax}])
+        witness = None
+        n = 0
+        for wd in alg.worlds():
+            # admissible worlds: x is one node, a parent of y (x -> y is the selected edge) and not its own parent
+            if not all(wd[r] == (r == (True, True, False)) for r in alg.regions if r[1]):
+                continue
+            n += 1
+            spec = alg.nonempty(("binop", "-", ("binop", "-", pay, sx), pax), wd)
+            got = alg.truth(cond, wd)
+            if (got if when_true_com else not got) != spec:
+                witness = wd
+                break
+        rep.check("STEP.z-exists", witness is None, fwhere(f, st.node),
+                  "unknown edges into y become compelled iff some parent z of y, z != x, is not a parent of x - in all %d admissible worlds of pa(y), {x}, pa(x)" % n,
+                  "the compelled / reversible decision deviates from `pa(y) - {x} - pa(x) is non-empty`: %s" % (
+                      "; ".join("%s: %s" % ("/".join(("" if m else "not ") + nmz for nmz, m in zip(("pa(y)", "{x}", "pa(x)"), r)), "non-empty" if inh else "empty")
+                                for r, inh in (witness or {}).items())))
+    except Inconclusive as e:
+        rep.unk("STEP.z-exists", fwhere(f, st.node), "the compelled / reversible decision is not a set predicate over pa(y), {x}, pa(x): %s" % e.why)
+
+
 def assemble_rules(rep, prog, marker, written, flabel):
     q = U + "dag_to_cpdag"
     f = need(prog, q)
@@ -106,6 +246,7 @@ def assemble_rules(rep, prog, marker, written, flabel):
                       sorted(final), marker, com, rev))
     rets = S.select("return", qname=q)
     rep.check("LABELS.result", len(rets) == 1 and rets[0].value[0] == "after", fwhere(f), "returns the assembled matrix", "result is not the assembled matrix")
+    return (com, rev) if ok else (None, None)
 
 
 def order_rules(rep, prog):
@@ -141,6 +282,42 @@ def order_rules(rep, prog):
               "unlabelled marker / labels inconsistent: marker %s, tests %s, labels start %s, increment by one: %s" % (marker, sorted(used), start, inc))
     topo = [c_ for c_ in S.select("call", qname=q) if c_.target == U + "topological_ordering" and c_.args == [G]]
     rep.check("ORDER.topological", len(topo) == 1, fwhere(f), "edges are ordered along topological_ordering(G)", "order_edges does not use the topological order of G")
+    # --- which edge gets the next label (roles; all accesses are [from, to])
+    if len(st) != 1 or len(topo) != 1 or marker is None:
+        return
+    LAB = ("LAB",)
+
+    def ab(t):
+        if t == mu:
+            return LAB
+        return tuple(ab(z) for z in t) if isinstance(t, tuple) else t
+    TO = topo[0].result
+    FULL = ("slice", ("const", None), ("const", None), ("const", None))
+    idx = ab(st[0].idx)
+    if not (idx[0] == "tuple" and len(idx[1]) == 2):
+        rep.bad("STEP.order-store", fwhere(f, st[0].node), "the label is not stored at a single [x, y] position")
+        return
+    x, y = idx[1]
+
+    def sort_first(t):
+        """t = sort(L, order)[0] -> (L, order)"""
+        if t[0] == "sub" and is_const(t[2], 0) and t[1][0] == "call" and t[1][1] == U + "sort":
+            named = dict(t[1][3])
+            return named.get("L"), named.get("order")
+        return None, None
+    Ly, Oy = sort_first(y)
+    Lx, Ox = sort_first(x)
+    unl = ("cmp", "==", LAB, ("const", marker))
+    rev_ok = Oy in (("ext", "reversed", (TO,), ()), ("sub", TO, ("slice", ("const", None), ("const", None), ("const", -1))),
+                    ("sub", TO, ("slice", ("const", None), ("const", None), ("unop", "neg", ("const", 1)))))
+    oky = Ly is not None and rev_ok and any(z == ("ext", "numpy.where", (unl,), ()) for z in walk(Ly)) and \
+        ({z[2] for z in walk(Ly) if isinstance(z, tuple) and len(z) == 3 and z[0] == "sub" and z[1] == ("ext", "numpy.where", (unl,), ())} in ({("const", 0), ("const", 1)}, {("const", 1)}))
+    rep.check("STEP.order-y", oky, fwhere(f, st[0].node), "y = the last node, in topological order, with an unlabelled edge (sort(., reversed(order))[0])",
+              "y is chosen as %s" % fmt(y)[:100])
+    want_Lx = ("sub", ("ext", "numpy.where", (("cmp", "==", ("sub", LAB, ("tuple", (FULL, y))), ("const", marker)),), ()), ("const", 0))
+    okx = Lx == want_Lx and Ox == TO
+    rep.check("STEP.order-x", okx, fwhere(f, st[0].node), "x = the first node, in topological order, among the unlabelled parents of y (column y)",
+              "x is chosen as %s" % fmt(x)[:100])
 
 
 def ordering_typing(rep, prog, qnames):
@@ -252,7 +429,9 @@ def extension_rules(rep, prog):
 def run(prog, rep, tier):
     pattern_entries(prog, rep, [(U + "dag_to_cpdag", "G"), (U + "order_edges", "G")])
     marker, written, fl = label_rules(rep, prog)
-    assemble_rules(rep, prog, marker, written, fl)
+    com, rev = assemble_rules(rep, prog, marker, written, fl)
+    if com is not None and marker is not None:
+        step_rules(rep, prog, marker, com, rev)
     order_rules(rep, prog)
     extension_rules(rep, prog)
     ordering_typing(rep, prog, [U + "order_edges"])
